@@ -8,7 +8,8 @@
      U <userDictPath>                            -> EffectsSave.user_dict_plan, same format
      G <home> <cwd> <cfgdir> <datadir> <u> <f> <s>  -> EffectsConfig.parse_render (Config::from_lsp_config's three paths): each
                                                     setting is A (absent), X (present, not a string) or S<hex> (S- = "");
-                                                    answer "E" (Err) or "<user> <filedir> <stats>" (hex)
+                                                    answer "E" (Err) or "<user> <filedir> <stats> <filedir as the monitor is told it>" (hex)
+     K <user> <filedir> <file>                   -> C10Cli.cli_lint_reads: the two dictionary files harper-cli lint opens for reading, "<user> <filedict>" (hex)
    Self-contained (does not use conv_*.ml: the extracted model defines its own type named `string`). *)
 let rec pos_of_int n = if n <= 1 then XH else if n land 1 = 0 then XO (pos_of_int (n lsr 1)) else XI (pos_of_int (n lsr 1))
 let n_of_int n = if n <= 0 then N0 else Npos (pos_of_int n)
@@ -50,10 +51,13 @@ let () =
        | ["F"; d; "N"] -> print_endline (plan_line (file_dict_plan (unhex d) None))
        | ["F"; d; p] -> print_endline (plan_line (file_dict_plan (unhex d) (Some (unhex p))))
        | ["U"; u] -> print_endline (plan_line (Some (user_dict_plan (unhex u))))
-       | ["G"; h; c; cd; dd; u; f; s] ->
-           print_endline (match parse_render (env h c cd dd) (sval u) (sval f) (sval s) with
+       | ["G"; h; c0; cd; dd; u; f; s] ->
+           print_endline (match parse_render (env h c0 cd dd) (sval u) (sval f) (sval s) with
              | None -> "E"
-             | Some ((a, b), c) -> Printf.sprintf "%s %s %s" (hex a) (hex b) (hex c))
+             | Some ((a, b), c) ->
+                 let m = match parse_monitor_filedir (env h c0 cd dd) (sval u) (sval f) (sval s) with Some m -> hex m | None -> "?" in
+                 Printf.sprintf "%s %s %s %s" (hex a) (hex b) (hex c) m)
+       | ["K"; u; d; f] -> let (a, b) = cli_lint_reads (unhex u) (unhex d) (unhex f) in print_endline (Printf.sprintf "%s %s" (hex a) (hex b))
        | ["L"; b] -> print_endline (if loopback_bytes (unhex b) then "1" else "0")
        | _ -> print_endline "?");
       loop ()
